@@ -204,6 +204,49 @@ pub fn eval(initial: &str, batches: &[Vec<Change>]) -> Option<(String, String)> 
     }
 }
 
+/// More documents than any small table: `n` documents are opened in a real broker, each is
+/// changed, and the broker's text of each equals the client's.
+pub fn many_documents(n: usize) -> Option<(String, String)> {
+    let r = guarded(move || {
+        vtokio::verif::set_controlled(false);
+        let (doctx, docrx) = mpsc::channel::<DocumentRequest>(32);
+        let (iotx, mut iorx) = mpsc::channel(32);
+        let b = broker(docrx, iotx, false);
+        let driver = async move {
+            let uri = |k: usize| Url::parse(&format!("file:///many{}.spl", k)).unwrap();
+            for k in 0..n {
+                doctx.send(DocumentRequest::Open(uri(k), format!("proc p{}() {{}}\n", k))).await.map_err(|_| "broker gone".to_string())?;
+            }
+            for k in 0..n {
+                let ev = TextDocumentContentChangeEvent { range: Some(Range { start: Position { line: 0, character: 0 }, end: Position { line: 0, character: 0 } }), range_length: None, text: format!("// {}\n", k) };
+                doctx.send(DocumentRequest::Change(uri(k), vec![ev])).await.map_err(|_| "broker gone".to_string())?;
+            }
+            let mut bad = None;
+            for k in 0..n {
+                let (tx, rx) = oneshot::channel();
+                doctx.send(DocumentRequest::GetInfo(uri(k), tx)).await.map_err(|_| "broker gone".to_string())?;
+                let info = rx.await.map_err(|_| "broker dropped the request".to_string())?;
+                let want = format!("// {}\nproc p{}() {{}}\n", k, k);
+                let got = info.map(|d| d.text);
+                if got.as_deref() != Some(want.as_str()) && bad.is_none() {
+                    bad = Some(format!("document {} of {}: server text {:?}, client text {:?}", k, n, got, want));
+                }
+            }
+            drop(doctx);
+            Ok::<_, String>(bad)
+        };
+        let drain = async move { while iorx.recv().await.is_some() {} };
+        let (_, r, _) = futures::executor::block_on(futures::future::join3(b, driver, drain));
+        r
+    });
+    match r {
+        Err(p) => Some(("error".into(), p)),
+        Ok(Err(e)) => Some(("error".into(), e)),
+        Ok(Ok(Some(d))) => Some(("many-documents".into(), d)),
+        Ok(Ok(None)) => None,
+    }
+}
+
 /// a line of more than 65 536 UTF-16 units behind an astral character, then 300 short lines
 pub fn long_document() -> String {
     format!("{}\u{1f600}{}\n{}", "a".repeat(300), "b".repeat(70_000), "x\u{e9}\n".repeat(300))
@@ -320,6 +363,19 @@ pub fn run(tier: Tier) -> Report {
             .collect();
         let mut seen: HashSet<String> = HashSet::new();
         fails.extend(f1b.into_iter().filter(|f| seen.insert(f.key.clone())));
+    }
+    // (1c) beyond the small bounds: 40 / 300 documents at once in the broker; a burst of
+    // 100 / 500 didChange notifications through the whole server loop (no request in between)
+    {
+        let n_docs = tier.pick(40, 300);
+        evals.fetch_add(2, Ordering::Relaxed);
+        if let Some((k, d)) = many_documents(n_docs) {
+            fails.push(Failure { key: format!("sync:{}", k), case: json!({"many_documents": n_docs}), detail: d });
+        }
+        let n = tier.pick(100, 500);
+        if let Some((k, d)) = crate::checks::c20::eval_change_burst(n, false) {
+            fails.push(Failure { key: format!("sync:burst-through-the-server-loop:{}", k), case: json!({"change_burst": n}), detail: d });
+        }
     }
     // (2) notifications with two and three events (texts one size smaller)
     let small = Strings::new(ALPHA, tier.pick(2, 3));
@@ -450,6 +506,12 @@ fn parse_change(v: &Value) -> Change {
 pub fn replay(case: &Value) -> Vec<Failure> {
     if let Some(t) = case.get("round_trip_text").and_then(|v| v.as_str()) {
         return round_trip(t).into_iter().map(|(k, d)| Failure { key: k, case: case.clone(), detail: d }).collect();
+    }
+    if let Some(n) = case["many_documents"].as_u64() {
+        return many_documents(n as usize).map(|(k, d)| vec![Failure { key: format!("sync:{}", k), case: case.clone(), detail: d }]).unwrap_or_default();
+    }
+    if let Some(n) = case["change_burst"].as_u64() {
+        return crate::checks::c20::eval_change_burst(n as usize, false).map(|(k, d)| vec![Failure { key: format!("sync:burst-through-the-server-loop:{}", k), case: case.clone(), detail: d }]).unwrap_or_default();
     }
     let long;
     let initial = if case["long_document"] == json!(true) {
